@@ -212,6 +212,8 @@ class SymMgr:
         c = engine.CTX
         g, u, v = z3.Ints(f'skg{self.tag} sku{self.tag} skv{self.tag}')
         c.assume(self.ite_axiom(g, u, v))
+        if self.itab is not None:
+            self.itab.lookups.append((g, u, v))     # so that models show the entry
         r = z3.Select(self.st.IT, g, u, v)
         return z3.Implies(r != 0, z3.And(
             self.present1(g), self.present1(u), self.present1(v),
@@ -222,6 +224,9 @@ class SymMgr:
         if self.cache_rebuilt is not None:
             return z3.BoolVal(len(self.cache_rebuilt) == 0)
         g, u, v = z3.Ints(f'ske{self.tag} skf{self.tag} skh{self.tag}')
+        engine.CTX.assume(self.ite_axiom(g, u, v))
+        if self.itab is not None:
+            self.itab.lookups.append((g, u, v))
         return z3.Select(self.st.IT, g, u, v) == 0
 
     def g_den_frame(self, den2):
